@@ -50,6 +50,26 @@ cmd('ReadChannelMessages', 'ReadChannelMessages', 'readmessages', unit=False)
 cmd('ListChannels', 'ListChannels', 'channels', unit=False)
 cmd('SetSingle', 'SetSingle', 'single', spec='(match self.0 { SingleMode::Disabled => %s, SingleMode::Enabled => %s, SingleMode::Oneshot => %s })' % tuple('%s.push(0x20u8) + %s' % (lit('single'), kw(w)) for w in ('0', '1', 'oneshot')))
 cmd('SetReplayGainMode', 'SetReplayGainMode', 'replay_gain_mode', spec='(match self.0 { ReplayGainMode::Off => %s, ReplayGainMode::Track => %s, ReplayGainMode::Album => %s, ReplayGainMode::Auto => %s })' % tuple('%s.push(0x20u8) + %s' % (lit('replay_gain_mode'), kw(w)) for w in ('off', 'track', 'album', 'auto')))
+RANGE = 'range_bytes'    # spec fn in definitions.vspec: bytes of `from:to` / `from:`
+def rng(e): return '%s(%s)' % (RANGE, e)
+W = lambda w, *a: ''.join([lit(w)] + ['.push(0x20u8) + %s' % x for x in a])
+cmd('Crossfade', 'Crossfade', 'crossfade', [num('dur_secs(self.0)')])
+cmd('Count', 'Count', 'count', ['self.filter.arg_bytes()'], ['mpd_protocol::command::arg_ok(self.filter.arg_bytes())'], unit=False, private=True)
+cmd('Shuffle', 'Shuffle', 'shuffle', spec='(match self.0 { None => %s, Some(r) => %s })' % (W('shuffle'), W('shuffle', rng('r'))), private=True)
+cmd('Play', 'Play', 'play', lits=['playid'], spec='(match self.0 { None => %s, Some(Song::Position(p)) => %s, Some(Song::Id(i)) => %s })' % (W('play'), W('play', num('p.0')), W('playid', num('i.0'))), private=True)
+cmd('Delete', 'Delete', 'delete', lits=['deleteid'], spec='(match self.0 { Target::Id(i) => %s, Target::Range(r) => %s })' % (W('deleteid', num('i.0')), W('delete', rng('r'))), private=True)
+cmd('QueueRange', 'QueueRange', 'playlistinfo', lits=['playlistid'], unit=False, private=True,
+    spec='(match self.0 { SongOrSongRange::Single(Song::Id(i)) => %s, SongOrSongRange::Single(Song::Position(p)) => %s, SongOrSongRange::Range(r) => %s })' % (W('playlistid', num('i.0')), W('playlistinfo', num('p.0')), W('playlistinfo', rng('r'))))
+cmd('LoadPlaylist', 'LoadPlaylist', 'load', ok=[okstr('self.name@')], private=True,
+    spec='(match self.range { None => %s, Some(r) => %s })' % (W('load', strarg('self.name@')), W('load', strarg('self.name@'), rng('r'))))
+cmd('AddToPlaylist', 'AddToPlaylist', 'playlistadd', ok=[okstr('self.playlist@'), okstr('self.song_url@')], private=True,
+    spec='(match self.position { None => %s, Some(p) => %s })' % (W('playlistadd', strarg('self.playlist@'), strarg('self.song_url@')), W('playlistadd', strarg('self.playlist@'), strarg('self.song_url@'), num('p.0'))))
+cmd('RemoveFromPlaylist', 'RemoveFromPlaylist', 'playlistdelete', ok=[okstr('self.playlist@')], private=True,
+    spec='(match self.target { PositionOrRange::Position(p) => %s, PositionOrRange::Range(r) => %s })' % (W('playlistdelete', strarg('self.playlist@'), num('p')), W('playlistdelete', strarg('self.playlist@'), rng('r'))))
+for s_, w in (('Update', 'update'), ('Rescan', 'rescan')):
+    cmd(s_, s_, w, ok=['(self.0 matches Some(u) ==> %s)' % okstr('u@')], unit=False, private=True, spec='(match self.0 { None => %s, Some(u) => %s })' % (W(w), W(w, strarg('u@'))))
+cmd('ListAllIn', 'ListAllIn', 'listallinfo', ok=[okstr('self.directory@')], unit=False, private=True,
+    spec='(if self.directory@.len() == 0 { %s } else { %s })' % (W('listallinfo'), W('listallinfo', strarg('self.directory@'))), extra='  tokens N10 "self.directory.is_empty()" "(vx_str_len(self.directory) == 0)"')
 cmd('AlbumArt', 'AlbumArt', 'albumart', [strarg('self.uri@'), num('self.offset')], [okstr('self.uri@')], unit=False, private=True)
 cmd('AlbumArtEmbedded', 'AlbumArtEmbedded', 'readpicture', [strarg('self.uri@'), num('self.offset')], [okstr('self.uri@')], unit=False, private=True)
 
@@ -108,7 +128,7 @@ def main():
         out.append('lift fn "<%s as Command>::command"' % k)
         out.append('  props C15\n  implicit C12')
         if c['extra']: out.append(c['extra'].rstrip('\n'))
-        out.append('  prologue <<<\n        proof { lemma_command_words(); lemma_keywords(); }\n        broadcast use dec_text_digits, lemma_num_arg_ok;\n  >>>')
+        out.append('  prologue <<<\n        proof { lemma_command_words(); lemma_keywords(); }\n        broadcast use dec_text_digits, lemma_num_arg_ok, lemma_range_arg_ok;\n  >>>')
         if not c['unit']:
             out.append('lift fn "<%s as Command>::response"' % k)
             out.append('  props\n  implicit\n  attr <<<\n    #[verifier::external_body]\n  >>>')
